@@ -1137,6 +1137,15 @@ def apply_method(w, e, mname, recv, args, kwargs, s):
         return c.outs
     fn = METHODS.get(mname)
     if fn is None:
+        if ts is None or not all(t in _ATTRS for t in ts):
+            # an attribute of an object the analysis knows nothing about, called as a function
+            # (args.func(args)): a dynamic call through the attribute's value
+            from .calls import call_value
+
+            return call_value(w, e, ("attr", recv, mname), args, kwargs, s)
+        if not any(mname in _ATTRS[t] for t in ts):
+            c.rz("AttributeError", "method .%s() does not exist on %s" % (mname, sorted(ts)), pure=False)
+            return c.outs
         raise AnalysisError("no table row for method .%s() at %s" % (mname, c.site))
     fn(c)
     return c.outs
